@@ -26,7 +26,7 @@ ANCHORS = ["model/model.py:GraphBuilder._add_model_log_prob_node", "model/model.
 ASSUMPTIONS = ["values are drawn inside each family's support and away from its boundary",
                "float32 tolerance |d| <= 5e-4 + 2e-5*sum|terms|; x64 tolerance 1e-8*(1+sum|terms|)"]
 WORKERS = 16
-TIMEOUT = {"quick": 900, "thorough": 3600}
+TIMEOUT = {"quick": 1500, "thorough": 10800}
 
 
 def tol(x64, abs_terms, cond=0.0):
